@@ -39,6 +39,7 @@ NsA == [t |-> "any"]
 NsP(x) == [t |-> "pfx", p |-> x]
 TypeS(ns, n) == [k |-> "type", ns |-> ns, name |-> n]
 AttrS(ns) == [k |-> "attr", ns |-> ns, name |-> A, op |-> "ex", val |-> <<>>, flag |-> "n"]
+AttrU(ns) == [k |-> "attr", ns |-> ns, name |-> <<65>>, op |-> "ex", val |-> <<>>, flag |-> "n"]     \* the same name in upper case
 Cx1(c) == [cs |-> <<c>>, cb |-> <<>>]
 Forms == {Cx1(<<TypeS(ns, E)>>) : ns \in {NsB, NsN, NsA, NsP(P), NsP(Q), NsP(U)}}
     \cup {Cx1(<<TypeS(NsB, Star)>>), Cx1(<<TypeS(NsP(P), Star)>>), Cx1(<<TypeS(NsA, Star)>>), Cx1(<<TypeS(NsN, Star)>>)}
@@ -46,6 +47,7 @@ Forms == {Cx1(<<TypeS(ns, E)>>) : ns \in {NsB, NsN, NsA, NsP(P), NsP(Q), NsP(U)}
           Cx1(<<[k |-> "not", args |-> <<Cx1(<<TypeS(NsP(P), E)>>)>>]>>),
           Cx1(<<[k |-> "is", args |-> <<Cx1(<<AttrS(NsB)>>)>>]>>)}
     \cup {Cx1(<<AttrS(ns)>>) : ns \in {NsB, NsN, NsA, NsP(P), NsP(Q), NsP(U)}}
+    \cup {Cx1(<<AttrU(ns)>>) : ns \in {NsB, NsA, NsP(P)}} \cup {Cx1(<<TypeS(NsP(P), <<69>>)>>)}
     \cup {Cx1(<<TypeS(NsP(P), E), AttrS(NsP(P))>>), Cx1(<<[k |-> "first-of-type"]>>), Cx1(<<AttrS(NsP(P)), AttrS(NsP(Q))>>)}
 PoolSet == {[sel |-> <<f>>, ns |-> m] : f \in Forms, m \in Maps}
 Pool == SetToSeq(PoolSet)
@@ -54,7 +56,8 @@ ASSUME PrintT(ToJson([pool |-> Pool]))
 \* xml: root r without namespace; html5: root in the XHTML namespace of an HTML (non-XML) document
 Init == doc \in {AddElem(EmptyDoc("doc", TRUE), 0, R),
                  AddElemNs(EmptyDoc("doc", FALSE), 0, R, XHTML, <<>>, <<>>),
-                 AddElemNs(EmptyDoc("doc", TRUE), 0, R, U1, P, <<>>)}
+                 AddElemNs(EmptyDoc("doc", TRUE), 0, R, U1, P, <<>>),
+                 AddElemNs(EmptyDoc("doc", TRUE), 0, R, XHTML, <<>>, <<>>)}        \* XHTML: XML builder, root in the XHTML namespace
 Next == /\ Len(doc.parent) < MaxKids + 1
         /\ \E n \in {E, F}, nsu \in NsChoices, px \in {<<>>, P, DP}, at \in AttrChoices :
              /\ (nsu = <<>> => px = <<>>)
